@@ -31,6 +31,19 @@ Theorem C12_dft_convolution_theorem : forall (R : Type) (r0 r1 : R) (radd rmul r
 Proof. exact convolution_theorem. Qed.
 Print Assumptions C12_dft_convolution_theorem.
 
+(** Parseval / Plancherel: sum_k X[k] * Y~[k] = N * sum_j x[j] * y[j], where Y~ is the transform with w^-1 (over the complex numbers and
+    real signals the complex conjugate of Y); x = y is Parseval's identity of the property text *)
+Theorem C12_dft_parseval : forall (R : Type) (r0 r1 : R) (radd rmul rsub : R -> R -> R) (ropp : R -> R),
+  ring_theory r0 r1 radd rmul rsub ropp eq ->
+  forall N : nat, (0 < N)%nat -> forall w : R,
+  rpow R r1 rmul w N = r1 ->
+  (forall d : nat, (0 < d < N)%nat -> rsum R r0 radd N (fun k => rpow R r1 rmul w (k * d)) = r0) ->
+  forall a b : nat -> R,
+  rsum R r0 radd N (fun k => rmul (dft R r0 r1 radd rmul N w a k) (dftc R r0 r1 radd rmul N w b k)) =
+  rmul (rnat R r0 r1 radd N) (rsum R r0 radd N (fun j => rmul (a j) (b j))).
+Proof. exact plancherel. Qed.
+Print Assumptions C12_dft_parseval.
+
 (** the exact transform satisfies the five laws of the FFT interface *)
 Theorem C12_dft_satisfies_fft_laws : forall (R : Type) (r0 r1 : R) (radd rmul rsub : R -> R -> R) (ropp : R -> R),
   ring_theory r0 r1 radd rmul rsub ropp eq ->
